@@ -201,6 +201,9 @@ def create_allocation_list(context, data, consumers):
                 context, consumer_uuid)
             for allocation in allocations:
                 allocation.used = 0
+                # Write with the consumer whose generation was verified,
+                # not with the one just re-read from the database.
+                allocation.consumer = consumer
                 allocation_objects.append(allocation)
 
     return allocation_objects
@@ -441,6 +444,9 @@ def _set_allocations_for_consumer(req, schema):
         allocations = alloc_obj.get_all_by_consumer_id(context, consumer_uuid)
         for allocation in allocations:
             allocation.used = 0
+            # Write with the consumer whose generation was verified, not with
+            # the one just re-read from the database.
+            allocation.consumer = consumer
             allocation_objects.append(allocation)
     else:
         # If the body includes an allocation for a resource provider
